@@ -591,7 +591,9 @@ func (P *Prover) calleePosts(f *ssa.Function, boolIdx int, boolVal bool, lower [
 					continue
 				}
 				pp := prm
-				if try(func(ret *ssa.Return) Poly { return CP.poly(ret.Results[k]).add(CP.lenOf(pp), -1) }) {
+				if try(func(ret *ssa.Return) Poly { return CP.poly(ret.Results[k]).add(CP.lenOf(pp), -1).add(constP(1), 1) }) {
+					out = append(out, postFact{res: k, kind: "ltLen", param: pi}) // an index into p, or a negative "not found"
+				} else if try(func(ret *ssa.Return) Poly { return CP.poly(ret.Results[k]).add(CP.lenOf(pp), -1) }) {
 					out = append(out, postFact{res: k, kind: "leLen", param: pi})
 				}
 			}
@@ -660,6 +662,10 @@ func (P *Prover) instPost(call *ssa.Call, pfs []postFact) []Poly {
 		case "leLen":
 			if pf.param < len(call.Call.Args) {
 				out = append(out, r.add(P.lenOf(call.Call.Args[pf.param]), -1))
+			}
+		case "ltLen":
+			if pf.param < len(call.Call.Args) {
+				out = append(out, r.add(P.lenOf(call.Call.Args[pf.param]), -1).add(constP(1), 1))
 			}
 		case "leParam":
 			if pf.param < len(call.Call.Args) {
